@@ -2,5 +2,5 @@ SPECIFICATION TSpec
 CONSTANTS
   ClearCountsRows = TRUE
   PlainNewline = TRUE
-  QuietClears = FALSE
+  QuietClears = TRUE
 INVARIANT TermOK
